@@ -251,6 +251,11 @@ def gen_history(seed, tier, classes=None, weights=None, n_ops=(6, 16),
       if p is None:
         return
       ops.append(dict(op="set_params", h=s.hid, params=p))
+      if s.fitted and s.fit_data and r.random() < 0.35:
+        # hyper-parameters only take effect at the next fit: ask the (still
+        # fitted) estimator something in between
+        ops.append(dict(op="query", h=s.hid, method=r.choice(methods(s)),
+                        probe=dict(probe(s), data=s.fit_data)))
       s.params = dict(getattr(s, "params", {}) or {}, **p)
       s.data = dk
     via = "indices" if (s.pre and r.random() < 0.6) else "formed"
@@ -477,9 +482,29 @@ def gen_history(seed, tier, classes=None, weights=None, n_ops=(6, 16),
         cand["tol"] = r.choice([1e-4, 1e-2])
       if "random_state" in cp:
         cand["random_state"] = r.randrange(10**6)
+      if "diagonal" in cp:
+        cand["diagonal"] = r.choice([True, False])
+      if "n_components" in cp:
+        cand["n_components"] = r.choice([None, 1, 2])
+      if "embedding_type" in cp:
+        cand["embedding_type"] = r.choice(["weighted", "orthonormalized", "plain"])
+      if "sparsity_param" in cp:
+        cand["sparsity_param"] = r.choice([0.01, 0.5])
+      if "gamma" in cp:
+        cand["gamma"] = r.choice([0.5, 2.0])
       if cand:
         key = r.choice(sorted(cand))
         ops.append(dict(op="set_params", h=s.hid, params={key: cand[key]}, nondata=True))
+        if s.fitted and r.random() < 0.5:
+          ops.append(dict(op="query", h=s.hid, method=r.choice(methods(s)), probe=probe(s)))
+        if key in ("diagonal", "n_components", "embedding_type", "sparsity_param", "gamma"):
+          # put the drawn value back before anything is fitted with it (it was
+          # drawn for the data at hand; the detour must leave no trace)
+          old_v = (getattr(s, "params", None) or {}).get(key, "<default>")
+          if old_v == "<default>":
+            fit_op(s, s.data, regen=True)
+          else:
+            ops.append(dict(op="set_params", h=s.hid, params={key: old_v}, nondata=True))
     elif k == "failfit":
       ops.append(dict(op="fit", h=s.hid, data=s.data, via="formed",
                       malformed=r.choice(["nan", "short_y"])))
